@@ -3428,6 +3428,24 @@ impl RaftNode {
             self.persist_term_and_vote(metadata.last_included_term, None)?;
         }
 
+        // The snapshot's entries replace the log. With a WAL, make that durable
+        // first: otherwise a restart recovers the pre-snapshot log, with a hole
+        // under every entry acknowledged on top of the snapshot.
+        if let Some(ref wal) = self.wal {
+            for entry in &entries {
+                self.persist_log_entry(entry)?;
+            }
+            if let Some(last) = entries.last() {
+                wal.lock()
+                    .append(&crate::raft_wal::RaftWalEntry::LogTruncate {
+                        from_index: last.index + 1,
+                    })
+                    .map_err(|e| {
+                        ChainError::StorageError(format!("WAL snapshot persist failed: {e}"))
+                    })?;
+            }
+        }
+
         // Install the snapshot
         let mut persistent = self.persistent.write();
         // Replace log with entries from snapshot - reset base since we have
